@@ -1,7 +1,7 @@
 """C14 — workbook format does not matter: CSV, XLSX and JSON inputs compile identically (PARTIAL).
 
 A  proof step: Rpft.Props.C14 (json_roundtrip, xlsx_sanitize_id, sanitize_idem, csv_read_id,
-   formats_agree, convert_then_compile, c14_partial + negative witnesses) over the hand model
+   readers_agree_on_blank_rows, the *_general round trips, formats_agree, convert_then_compile, c14_partial + negative witnesses) over the hand model
    Rpft/Sheets.lean of `_sanitize`, `to_json`/`table.dict`, `JSONSheetReader`/`table.dict = …`
    and tablib's CSV record loop; and the CSV BYTE FORMAT (Rpft/Csv.lean: csv.writer dialect,
    newline='' line iteration, the csv.reader automaton with its field limit, UTF-8) with
@@ -26,7 +26,8 @@ B  tie: (1) every generated sheet through the model (`sheets.all`) vs what the R
 C  direct oracle: workbooks written by the harness as CSV folder (Python `csv`), XLSX
    (openpyxl, text cells) and JSON (real `convert_to_json` from the CSV AND from the XLSX) must
    be read by `create_sheet_reader(fmt, path).sheets` into exactly what was written, cell by
-   cell; compilable workbooks must compile with the real `create_flows` to the same flows (up
+   cell, all-empty rows omitted (by every reader alike: F-C14-a, fixed — such rows are a regular
+   class of the generators); compilable workbooks must compile with the real `create_flows` to the same flows (up
    to invented UUIDs) from all formats, and convert→compile = compile.
 """
 from __future__ import annotations
@@ -44,9 +45,9 @@ import tempfile
 from .. import core, par
 
 MANIFEST = dict(
-    text="Proof (partial): Lean theorems json_roundtrip (to_json then JSONSheetReader is the identity on rectangular sheets with distinct headers and at least one row), xlsx_sanitize_id / xlsx_sanitize_grid (XLSXSheetReader._sanitize is the identity on what openpyxl delivers for rectangular text sheets with non-empty headers and no all-empty row), sanitize_idem (for every grid), csv_read_id (tablib's CSV record loop), and — the CSV byte format being inside the model (Python csv.writer with the excel dialect tablib uses, text-file line iteration with newline='', the csv.reader state machine with its 131072-character field limit, UTF-8) — csv_read_write (reader(writer(records)) = records for ALL lists of records: any shape, empty records, cells with commas, quotes, CR, LF, any Unicode, up to the field limit), writeCsv_injective (unconditional), csv_reader_grammar (the reader is correct on every text of the CSV grammar: CRLF or LF records, each field quoted-with-doubled-quotes or plain), csv_read_write_dialect (LF / QUOTE_ALL writers; the LF+QUOTE_MINIMAL writer of CPython 3.12 needs CR-free cells: lf_minimal_loses_cr), csv_file_roundtrip (tablib export -> UTF-8 bytes -> load_csv is the identity on rectangular sheets with a header), csv_read_write_iff / csv_unfit_raises / csv_reader_total / loadCsv_errors (the guard is exact; on every text the only failures are the field limit, non-UTF-8 bytes and tablib's InvalidDimensions), and — the JSON byte format being inside the model too (json.dumps(ensure_ascii=False, indent=2) and json.loads for strings / arrays / objects, the book value of to_json, text-mode reading, the JSONSheetReader loop) — json_string_roundtrip (string literals, every string), json_document_roundtrip (loads(dumps(v)) = v for every value with distinct keys), json_file_roundtrip (to_json -> UTF-8 bytes -> JSONSheetReader is the identity on workbooks of rectangular sheets with distinct headers, at least one row and distinct names), formats_agree / c14_partial (the three readers deliver the same sheets: proved for the CSV and JSON bytes, relative to the XLSX byte format being faithful) and convert_then_read / convert_then_compile (convert followed by compilation = compiling the source, for any compiler that is a function of the sheets), each hypothesis shown necessary by a kernel-checked witness that is replayed on the real code. The model of the csv library is tied to the real csv module on every run (exhaustive small grids and texts over {a , \" CR LF space e-acute}, random larger grids, hand-made unusual texts, mutated and non-UTF-8 files through the project's load_csv, the field limit at its real value), the model of the json library to json.dumps / json.decoder.scanstring / json.loads / the real convert output and JSON reader (exhaustive short strings and texts, random escape sequences, every real convert output of the run byte for byte, foreign-style and damaged JSON files). The quantifier over cell contents for the XLSX byte format (openpyxl / tablib) is carried by the harness: generated workbooks (1-6 sheets, 1-15 rows, unique non-empty headers, empty cells, commas, quotes, newlines, | ; \\, leading = and ', numeric- and boolean-looking text, leading/trailing blanks, non-ASCII and astral characters) are written as CSV folder, XLSX and JSON (real convert_to_json from both), read back by the real readers and compared cell by cell with what was written and with the model; compilable workbooks are compiled by the real create_flows from every format and compared up to invented UUIDs.",
+    text="Proof (partial): Lean theorems json_roundtrip (to_json then JSONSheetReader is the identity on rectangular sheets with distinct headers and at least one row), xlsx_sanitize_id / xlsx_sanitize_grid (XLSXSheetReader._sanitize is the identity on what openpyxl delivers for rectangular text sheets with non-empty headers and no all-empty row), sanitize_idem (for every grid), csv_read_id (tablib's CSV record loop), and — the CSV byte format being inside the model (Python csv.writer with the excel dialect tablib uses, text-file line iteration with newline='', the csv.reader state machine with its 131072-character field limit, UTF-8) — csv_read_write (reader(writer(records)) = records for ALL lists of records: any shape, empty records, cells with commas, quotes, CR, LF, any Unicode, up to the field limit), writeCsv_injective (unconditional), csv_reader_grammar (the reader is correct on every text of the CSV grammar: CRLF or LF records, each field quoted-with-doubled-quotes or plain), csv_read_write_dialect (LF / QUOTE_ALL writers; the LF+QUOTE_MINIMAL writer of CPython 3.12 needs CR-free cells: lf_minimal_loses_cr), readers_agree_on_blank_rows (for every rectangular sheet with distinct non-empty headers and a row, the CSV, XLSX and JSON readers all deliver the sheet without its all-empty rows: omit_empty_rows in load_csv / JSONSheetReader drops exactly the rows _sanitize drops, xlsx_rows_eq_omitEmptyRows for every grid), the round trips in general form (csv_reader_general, json_reader_general, xlsx_sanitize_general, csv_file_roundtrip_general, json_file_roundtrip_general, convert_then_read_general: what is read is the sheet with its all-empty rows removed) with the identity as corollary exactly when there is no all-empty row (omitEmpty_eq_self_iff), csv_file_roundtrip (tablib export -> UTF-8 bytes -> load_csv is the identity on rectangular sheets with a header and no all-empty row), csv_read_write_iff / csv_unfit_raises / csv_reader_total / loadCsv_errors (the guard is exact; on every text the only failures are the field limit, non-UTF-8 bytes and tablib's InvalidDimensions), and — the JSON byte format being inside the model too (json.dumps(ensure_ascii=False, indent=2) and json.loads for strings / arrays / objects, the book value of to_json, text-mode reading, the JSONSheetReader loop) — json_string_roundtrip (string literals, every string), json_document_roundtrip (loads(dumps(v)) = v for every value with distinct keys), json_file_roundtrip (to_json -> UTF-8 bytes -> JSONSheetReader is the identity on workbooks of rectangular sheets with distinct headers, at least one row, no all-empty row and distinct names), formats_agree / c14_partial (the three readers deliver the same sheets: proved for the CSV and JSON bytes, relative to the XLSX byte format being faithful) and convert_then_read / convert_then_compile (convert followed by compilation = compiling the source, for any compiler that is a function of the sheets), each hypothesis shown necessary by a kernel-checked witness that is replayed on the real code. The model of the csv library is tied to the real csv module on every run (exhaustive small grids and texts over {a , \" CR LF space e-acute}, random larger grids, hand-made unusual texts, mutated and non-UTF-8 files through the project's load_csv, the field limit at its real value), the model of the json library to json.dumps / json.decoder.scanstring / json.loads / the real convert output and JSON reader (exhaustive short strings and texts, random escape sequences, every real convert output of the run byte for byte, foreign-style and damaged JSON files). The quantifier over cell contents for the XLSX byte format (openpyxl / tablib) is carried by the harness: generated workbooks (1-6 sheets, 1-15 rows, unique non-empty headers, empty cells, all-empty rows at the start / in the middle / at the end / several in a row and rows of blanks, commas, quotes, newlines, | ; \\, leading = and ', numeric- and boolean-looking text, leading/trailing blanks, non-ASCII and astral characters) are written as CSV folder, XLSX and JSON (real convert_to_json from both), read back by the real readers and compared cell by cell with what was written and with the model; compilable workbooks are compiled by the real create_flows from every format and compared up to invented UUIDs.",
     ref="§5 C14",
-    note="PARTIAL: the XLSX byte format is library code (openpyxl zip + XML, tablib xlsx import) and is exercised, not modelled; the CSV byte format (csv.writer / csv.reader / line iteration / UTF-8) and the JSON byte format (json.dumps with indent / json.loads restricted to strings, arrays and objects / text-mode reading) ARE modelled, proved to round-trip (all grids / all workbooks in the domain) and tied to the real csv and json modules; the repo's own post-processing is modelled and proved. Trusts: Lean kernel (axioms audited each run), that the Lean models of CPython's _csv.c, _json.c / json.encoder and text-file reading are faithful beyond the exhaustively and randomly compared inputs (the interpreter's recursion limit for deeply nested JSON is not modelled), harness writers (openpyxl text cells) and Driver JSON codec. Known findings: F-C14-a (all-empty row kept by CSV/JSON, dropped by XLSX: a compile differs), F-C14-b (header-only sheet loses its headers through convert: JSON compile crashes). (F-C14-c, CR/CRLF in CSV cells, was fixed in /repo.)",
+    note="PARTIAL: the XLSX byte format is library code (openpyxl zip + XML, tablib xlsx import) and is exercised, not modelled; the CSV byte format (csv.writer / csv.reader / line iteration / UTF-8) and the JSON byte format (json.dumps with indent / json.loads restricted to strings, arrays and objects / text-mode reading) ARE modelled, proved to round-trip (all grids / all workbooks in the domain) and tied to the real csv and json modules; the repo's own post-processing is modelled and proved. Trusts: Lean kernel (axioms audited each run), that the Lean models of CPython's _csv.c, _json.c / json.encoder and text-file reading are faithful beyond the exhaustively and randomly compared inputs (the interpreter's recursion limit for deeply nested JSON is not modelled), harness writers (openpyxl text cells) and Driver JSON codec. Known findings: F-C14-b (header-only sheet loses its headers through convert: JSON compile crashes). (F-C14-a, all-empty row kept by CSV/JSON and dropped by XLSX, and F-C14-c, CR/CRLF in CSV cells, were fixed in /repo: all-empty rows are a regular generator class now, omitted by every reader.)",
     technique="Lean 4 proof of the readers' post-processing (induction over the row loops) and of the CSV and JSON byte formats (csv.writer / csv.reader automaton: invariant over records, fields and characters of a machine fusing the line iterator with the reader; json.dumps / json.loads: mutual structural induction over values, elements and members with a fuel-indexed recursive-descent reader) + exhaustive/random differential tie of those models against the real csv and json modules + generated three-format differential run on the real readers and compiler",
 )
 
@@ -2109,10 +2110,12 @@ def run(ck: core.Check):
         "read stream: seeded workbooks of 1-6 sheets, 1-15 rows, 1-30 unique non-empty headers, cells from a pool of empty / plain / "
         "format-hostile text (commas, quotes, LF, | ; \\, leading = ', numeric- and boolean-looking, edge blanks, non-ASCII, astral, text that is not in Unicode "
         "NFC / NFKC form: decomposed accents, conjoining jamo, singletons such as U+212B U+2126 U+037E, compatibility characters — in sheet names, headers "
-        "and cells; two sheet names of one workbook never differ only in case or normalisation, two headers of one sheet may), each written "
+        "and cells; two sheet names of one workbook never differ only in case or normalisation, two headers of one sheet may; in ~30% of the workbooks some "
+        "sheets get all-empty rows — at the start / in the middle / at the end / several in a row / scattered / around every row — and sometimes a row of "
+        "blanks, which is NOT empty; every sheet keeps a non-empty row), each written "
         "as CSV folder (CRLF or LF records, minimal or full quoting), XLSX (text cells; empty cell absent or empty text) and JSON by the real "
         "convert from both; compile stream: content-index workbooks (templates, data sheets, loops) and core flow sheets with decorated message "
-        "texts; direct stream: grids with None / typed cells / trailing and inner None headers fed to _sanitize, ragged JSON contents, tables with "
+        "texts, ~30% of them with all-empty rows in index / flow / data sheets, plus 7 fixed workbooks with such rows; direct stream: grids with None / typed cells / trailing and inner None headers fed to _sanitize, ragged JSON contents, tables with "
         "duplicate or no headers fed to table.dict; csv streams: every text of length <= 5 (quick) / <= 6 (thorough) over {a , \" CR LF space e-acute} through "
         "the reader and the line iterator, every grid of <= 2 fields of <= 2 such characters (one record) / two one-field records / empty-record shapes "
         "x {CRLF, LF} x {QUOTE_MINIMAL, QUOTE_ALL} through writer and reader, random ragged grids of 0-12 records with CR/LF/CRLF/quote/NUL-rich cells, "
